@@ -154,11 +154,28 @@ func fieldRange(t types.Type, name string) (int, int, types.Type, bool) {
 	return 0, 0, nil, false
 }
 
+var intRangeCache [64][2]*big.Int
+
 func intRangeOf(t types.Type) (lo, hi *big.Int) {
 	b, ok := t.Underlying().(*types.Basic)
 	if !ok {
 		return nil, nil
 	}
+	k := int(b.Kind())
+	if k >= 0 && k < len(intRangeCache) {
+		if c := intRangeCache[k]; c[0] != nil {
+			return c[0], c[1]
+		}
+		lo, hi = intRangeOfSlow(b)
+		if lo != nil {
+			intRangeCache[k] = [2]*big.Int{lo, hi}
+		}
+		return lo, hi
+	}
+	return intRangeOfSlow(b)
+}
+
+func intRangeOfSlow(b *types.Basic) (lo, hi *big.Int) {
 	pow := func(n uint) *big.Int { return new(big.Int).Lsh(big.NewInt(1), n) }
 	signed := func(bits uint) (*big.Int, *big.Int) {
 		return new(big.Int).Neg(pow(bits - 1)), new(big.Int).Sub(pow(bits-1), big.NewInt(1))
